@@ -68,7 +68,11 @@ def gen_package(rng, root, top, outer):
                 else:
                     continue
                 syms.append(s)
-            src += "__all__ = %r\n" % syms
+            if rng.random() < 0.35:
+                # a top-level definition the module does not export (unlisted base class / helper)
+                src += gen_class(rng, "Unexported%s" % m.title()) if rng.random() < 0.5 else gen_func(rng, "unexported_%s" % m)
+            if rng.random() < 0.85:
+                src += "__all__ = %r\n" % syms
             open(os.path.join(pkg_dir, m + ".py"), "w").write(src)
             modules.append((pkg_fqn + "." + m, "module", syms))
             exports.append((pkg_fqn + "." + m, syms))
